@@ -27,12 +27,12 @@ import HidiProofs.Props.C04mixed
 namespace Hidi.Props.GenTie
 open Hidi Hidi.GoLite Hidi.Gen Hidi.BodiesTie Hidi.Spec Hidi.EngineSim Hidi.AnaIndep Hidi.KInvReach
 
-/-- nothing fell outside the translator's subset -/
+/-- none of the methods of the key path fell outside the translator's subset -/
 theorem GenTie_translated :
-    Body.notTranslated = [] ∧
-    Body.translated = ["OctaveDown", "OctaveUp", "OctaveReset", "SemitoneDown", "SemitoneUp", "SemitoneReset", "MappingDown",
+    ["OctaveDown", "OctaveUp", "OctaveReset", "SemitoneDown", "SemitoneUp", "SemitoneReset", "MappingDown",
       "MappingUp", "MappingReset", "ChannelDown", "ChannelUp", "ChannelReset", "CCLearningOn", "CCLearningOff", "Panic",
-      "checkDoubleActions", "NoteOn", "NoteOff", "AnalogNoteOn", "AnalogNoteOff", "checkExitSequence", "handleKEYEvent"] := by
+      "checkDoubleActions", "NoteOn", "NoteOff", "AnalogNoteOn", "AnalogNoteOff", "checkExitSequence",
+      "handleKEYEvent"].all (fun n => decide (n ∈ Body.translated)) = true := by
   decide
 
 /-- the dispatch table `actionsPress` and every method it names (`Panic`, `MappingUp/Down`, `OctaveUp/Down`,
@@ -47,18 +47,18 @@ theorem GenTie_actionsRelease (d : Dev) (a : Action) :
 theorem GenTie_checkDoubleActions (d : Dev) :
     Body.checkDoubleActions (toG d) = (toG d.checkDouble.1, d.checkDouble.2) := checkDouble_eq d
 
-theorem GenTie_NoteOn (d : Dev) (sub : Sub) (code : Code) (v t : Int) :
-    Body.noteOn (toG d) sub code v t = toGR (d.noteOn sub code) := noteOn_eq d sub code v t
+theorem GenTie_NoteOn (d : Dev) (sub : Sub) (node : String) (code : Code) (v t : Int) :
+    Body.noteOn (toG d) sub node code v t = toGR (d.noteOn sub code) := noteOn_eq d sub node code v t
 
-theorem GenTie_NoteOff (d : Dev) (sub : Sub) (code : Code) (v t : Int) :
-    Body.noteOff (toG d) sub code v t = toGR (d.noteOff code) := noteOff_eq d sub code v t
+theorem GenTie_NoteOff (d : Dev) (sub : Sub) (node : String) (code : Code) (v t : Int) :
+    Body.noteOff (toG d) sub node code v t = toGR (d.noteOff code) := noteOff_eq d sub node code v t
 
-theorem GenTie_AnalogNoteOn (d : Dev) (id : Code × Bool) (note chOff : Nat) (sub : Sub) (code : Code) (v t : Int) :
-    Body.analogNoteOn (toG d) id (note : Int) (chOff : Int) sub code v t = toGR (d.analogNoteOn id note chOff) :=
-  analogNoteOn_eq d id note chOff sub code v t
+theorem GenTie_AnalogNoteOn (d : Dev) (id : Code × Bool) (note chOff : Nat) (sub : Sub) (node : String) (code : Code) (v t : Int) :
+    Body.analogNoteOn (toG d) id (note : Int) (chOff : Int) sub node code v t = toGR (d.analogNoteOn id note chOff) :=
+  analogNoteOn_eq d id note chOff sub node code v t
 
-theorem GenTie_AnalogNoteOff (d : Dev) (id : Code × Bool) (sub : Sub) (code : Code) (v t : Int) :
-    Body.analogNoteOff (toG d) id sub code v t = toGR (d.analogNoteOff id) := analogNoteOff_eq d id sub code v t
+theorem GenTie_AnalogNoteOff (d : Dev) (id : Code × Bool) (sub : Sub) (node : String) (code : Code) (v t : Int) :
+    Body.analogNoteOff (toG d) id sub node code v t = toGR (d.analogNoteOff id) := analogNoteOff_eq d id sub node code v t
 
 theorem GenTie_checkExitSequence (d : Dev) :
     Body.checkExitSequence (toG d) = (if d.exitComplete then (toG d).emit .sig else toG d, d.exitComplete) :=
@@ -66,8 +66,8 @@ theorem GenTie_checkExitSequence (d : Dev) :
 
 /-- **the key handler**: for every state (channel a `uint8`), sub-handler, key code, value and event type the
     translated `handleKEYEvent` ends in the model's state having sent the model's messages -/
-theorem GenTie_handleKEYEvent (d : Dev) (hch : d.channel < 256) (sub : Sub) (code : Code) (v t : Int) :
-    Body.handleKEYEvent (toG d) sub code v t = toGR (d.handleKey sub code v) := handleKey_eq d hch sub code v t
+theorem GenTie_handleKEYEvent (d : Dev) (hch : d.channel < 256) (sub : Sub) (node : String) (code : Code) (v t : Int) :
+    Body.handleKEYEvent (toG d) sub node code v t = toGR (d.handleKey sub code v) := handleKey_eq d hch sub node code v t
 
 theorem kinv_channel {cfg : Config} {d : Dev} (hd : KInv cfg d) : d.channel < 256 := by
   have := hd.ch
@@ -76,18 +76,18 @@ theorem kinv_channel {cfg : Config} {d : Dev} (hd : KInv cfg d) : d.channel < 25
 
 /-- in every non-crashed state of every history of an accepted configuration -/
 theorem GenTie_reachable (cfg : Config) (hacc : Accepted cfg = true) (evs : List Ev)
-    (hdead : ((Dev.init cfg).run evs).1.dead = false) (sub : Sub) (code : Code) (v t : Int) :
-    Body.handleKEYEvent (toG ((Dev.init cfg).run evs).1) sub code v t =
+    (hdead : ((Dev.init cfg).run evs).1.dead = false) (sub : Sub) (node : String) (code : Code) (v t : Int) :
+    Body.handleKEYEvent (toG ((Dev.init cfg).run evs).1) sub node code v t =
       toGR (((Dev.init cfg).run evs).1.handleKey sub code v) :=
-  handleKey_eq _ (kinv_channel (reachable_kinv cfg hacc evs hdead)) sub code v t
+  handleKey_eq _ (kinv_channel (reachable_kinv cfg hacc evs hdead)) sub node code v t
 
 /-! ### property theorems about the generated handler -/
 
 /-- C02 on the generated code: releasing a key sends exactly the Note Off recorded at its press (or nothing, by the
     collision mode) -/
-theorem GenTie_C02_release_pinned {cfg : Config} {d : Dev} (hd : KInv cfg d) (sub : Sub) (code : Code) (t : Int)
+theorem GenTie_C02_release_pinned {cfg : Config} {d : Dev} (hd : KInv cfg d) (sub : Sub) (node : String) (code : Code) (t : Int)
     (hna : alookup code cfg.actions = none) :
-    (Body.handleKEYEvent (toG d) sub code 0 t).out =
+    (Body.handleKEYEvent (toG d) sub node code 0 t).out =
       match alookup code d.noteTr with
       | none => []
       | some (n, ch) => releaseOuts cfg.mode (decide (d.count ch n = 1)) ch n := by
@@ -95,10 +95,10 @@ theorem GenTie_C02_release_pinned {cfg : Config} {d : Dev} (hd : KInv cfg d) (su
   exact C02.C02_all_release_pinned hd sub code hna
 
 /-- C13 on the generated code: the panic press sends All Notes Off and the 128 Note Offs on the current channel -/
-theorem GenTie_C13_panic_messages {cfg : Config} {d : Dev} (hd : KInv cfg d) (sub : Sub) (code : Code) (t : Int)
+theorem GenTie_C13_panic_messages {cfg : Config} {d : Dev} (hd : KInv cfg d) (sub : Sub) (node : String) (code : Code) (t : Int)
     (ha : alookup code cfg.actions = some .panic) (hsw : (kt d code 1).exitComplete = false)
     (hnp : (withAct (kt d code 1) .panic).checkDouble.2 = false) :
-    (Body.handleKEYEvent (toG d) sub code 1 t).out = panicMsgs d.channel := by
+    (Body.handleKEYEvent (toG d) sub node code 1 t).out = panicMsgs d.channel := by
   rw [handleKey_eq d (kinv_channel hd)]
   exact C13.C13_all_messages hd sub code ha hsw hnp
 
@@ -106,8 +106,8 @@ theorem GenTie_C13_panic_messages {cfg : Config} {d : Dev} (hd : KInv cfg d) (su
     prescribe (`resolve`, `pressSpec`) -/
 theorem GenTie_C04_press {cfg : Config} {d : Dev} (hd : KInv cfg d)
     (hcnt : ∀ ch n, d.count ch n = (holders d.noteTr (n, ch) : Int))
-    (sub : Sub) (code : Code) (t : Int) (hna : alookup code cfg.actions = none) (hsw : (kt d code 1).exitComplete = false) :
-    (Body.handleKEYEvent (toG d) sub code 1 t).out =
+    (sub : Sub) (node : String) (code : Code) (t : Int) (hna : alookup code cfg.actions = none) (hsw : (kt d code 1).exitComplete = false) :
+    (Body.handleKEYEvent (toG d) sub node code 1 t).out =
       match resolve cfg (StObs.ofDev d) (u8 cfg.vel) sub code with
       | none => []
       | some (n, ch, v) => C03.pressSpec cfg.mode (holders d.noteTr (n, ch)) ch n v := by
@@ -116,8 +116,8 @@ theorem GenTie_C04_press {cfg : Config} {d : Dev} (hd : KInv cfg d)
 
 /-- C14 on the generated code: the handler raises the termination signal iff the event is a press that completes the
     non-empty exit sequence -/
-theorem GenTie_C14_signal {cfg : Config} {d : Dev} (hd : KInv cfg d) (sub : Sub) (code : Code) (v t : Int) :
-    Out.sig ∈ (Body.handleKEYEvent (toG d) sub code v t).out ↔
+theorem GenTie_C14_signal {cfg : Config} {d : Dev} (hd : KInv cfg d) (sub : Sub) (node : String) (code : Code) (v t : Int) :
+    Out.sig ∈ (Body.handleKEYEvent (toG d) sub node code v t).out ↔
       (v = 1 ∧ cfg.exitSeq ≠ [] ∧ ∀ k ∈ cfg.exitSeq, k ∈ d.keyTr ∨ k = code) := by
   rw [handleKey_eq d (kinv_channel hd)]
   obtain ⟨m, hm⟩ := hd.curMap
@@ -143,14 +143,14 @@ def exC : Config :=
     defCh := 1, defMap := 0, vel := 64, axes := [] }
 
 /-- press of a mapped key: Note On 60 on channel 1 -/
-example : (Body.handleKEYEvent (toG (Dev.init exC)) "" 30 1 1).out = [.midi 0x90 60 64] := by decide
+example : (Body.handleKEYEvent (toG (Dev.init exC)) "" "" 30 1 1).out = [.midi 0x90 60 64] := by decide
 /-- octave up, then key 31 (channel offset 1): Note On 74 on channel 2 -/
-example : (Body.handleKEYEvent (Body.handleKEYEvent (toG (Dev.init exC)) "" 59 1 1) "" 31 1 1).out = [.midi 0x91 74 64] := by
+example : (Body.handleKEYEvent (Body.handleKEYEvent (toG (Dev.init exC)) "" "" 59 1 1) "" "" 31 1 1).out = [.midi 0x91 74 64] := by
   decide
 /-- the exit sequence (Alt then Esc): the completing press raises the signal and is swallowed (no panic burst) -/
-example : (Body.handleKEYEvent (Body.handleKEYEvent (toG (Dev.init exC)) "" 56 1 1) "" 1 1 1).out = [.sig] := by decide
+example : (Body.handleKEYEvent (Body.handleKEYEvent (toG (Dev.init exC)) "" "" 56 1 1) "" "" 1 1 1).out = [.sig] := by decide
 -- Esc alone is the panic key: 129 messages
 set_option maxRecDepth 16000 in
-example : (Body.handleKEYEvent (toG (Dev.init exC)) "" 1 1 1).out.length = 129 := by decide
+example : (Body.handleKEYEvent (toG (Dev.init exC)) "" "" 1 1 1).out.length = 129 := by decide
 
 end Hidi.Props.GenTie
